@@ -2,6 +2,7 @@
 import vlib
 import rescommon as rc
 import unicommon as uc
+import reccommon as rec
 from vlib import Verdict, workdir, rng
 
 PID = "C18"
@@ -62,7 +63,11 @@ def run(tier):
               "cache operations performed before it; TLC validates: only-v4 / only-v6 never the other family; "
               "prefer-* never the other family while an address of the preferred family for that name server is held "
               "(local zone, initial cache or inserted earlier); address look-ups ask the preferred family first; every "
-              "exchange to the configured port; forwarding only to the forwarder. An evaluation is one resolution.")
+              "exchange to the configured port; forwarding only to the forwarder. The resolver as a state machine "
+              "(Recursive.tla, recursive and forwarding mode) is explored exhaustively inside generated universes "
+              "(Inv_C18_Family: family of every contacted address against what local zones and cache hold at that "
+              "moment; look-up order of resolve_hostname_to_ip; forwarder only), and every recorded resolution is "
+              "validated as a behaviour of that state machine. An evaluation is one resolution.")
     v.assumptions = ["the map from addresses to name-server hosts is supplied with the universe"]
     wd = workdir("c18")
     vlib.build_harness()
@@ -79,6 +84,10 @@ def run(tier):
                 k = "%s/v%d" % (ln["protocol"] if ln["mode"] != "forwarding" else "forwarding", e["v"])
                 fam[k] = fam.get(k, 0) + 1
     v.notes["exchanges_by_mode_and_family"] = fam
+    # the resolver as a state machine: Inv_C18_Family in every reachable state of every explored universe (every order
+    # of candidates and addresses, faults anywhere), and the recorded resolutions as behaviours of that state machine
+    rec.model_check(v, PID, wd, r_, tier)
+    rec.conformance(v, wd, lines)
     if lines:
         ln = lines[0]
         v.sample({"protocol": ln["protocol"], "question": ln["runs"][0]["q"],
